@@ -112,15 +112,6 @@ def norm(name, t):
     return t
 
 
-def lossy(t):
-    """a bulk string that went through a script came out of String::from_utf8_lossy (C12's subject): applied to both sides"""
-    if t[0] in ("a", "m", "S"):
-        return (t[0], tuple(lossy(x) for x in t[1]))
-    if t[0] in ("b", "s") and len(t) > 1:
-        return (t[0], hx(unhx(t[1]).decode("utf-8", "replace").encode("utf-8")))
-    return t
-
-
 def same_reply(name, a, b):
     a, b = norm(name, a), norm(name, b)
     if a == b:
@@ -199,6 +190,11 @@ class Sess:
         if not sw or "=" not in sw:
             raise InternalError("drv_dbs does not answer `switches`: %r" % sw)
         self.switches = {kv.split("=")[0]: kv.split("=")[1] == "1" for kv in sw.split(" ")}
+        lq = self.model.ask("luaquirks")
+        if not lq or "=" not in lq:
+            raise InternalError("drv_dbs does not answer `luaquirks`: %r" % lq)
+        # conversion switches of the script path as C12's translator reads them off lua_engine.rs (Gen/Lua.lean)
+        self.luaq = {kv.split("=")[0]: kv.split("=")[1] == "1" for kv in lq.split(" ")}
         r = self.ctl.cmd("SCRIPT", "LOAD", WRAPPER)
         if r[0] != "b":
             raise InternalError("SCRIPT LOAD failed: %r" % (r,))
@@ -366,9 +362,6 @@ class Sess:
         step.update({"line": line, "code": code, "spec": spec, "served": served, "spec_served": spec_served,
                      "same": same == "same", "accesses": acc})
         code_t, spec_t = parse_tree(code), parse_tree(spec)
-        if op["k"] == "script" or (isinstance(names, list) and self.multi_scripts[c]):
-            code_t, spec_t = lossy(code_t), lossy(spec_t)
-            impl = lossy(impl) if impl is not None else None
         if blocking and died is None:
             if code_t == ("noreply",):
                 args = [unhx(a) for a in op["args"]]
@@ -594,8 +587,8 @@ class HistGen:
         return [name, self.select_arg(valid)]
 
     def script_cmds(self):
-        """1-3 well-formed calls with valid UTF-8 arguments: malformed options/arity and binary data take different
-        routes through executor.rs (C12's subject); wrong-type targets and missing keys are included"""
+        """1-3 well-formed calls: malformed options/arity take different routes through executor.rs (C12's subject);
+        wrong-type targets, missing keys and (since 185512d) binary keys/values are included"""
         r = self.r
         g = self.gs
         out = []
@@ -612,13 +605,13 @@ class HistGen:
                     cmd = [b"KEYS", r.choice([b"*", b"k*", b"?", b"*1", b"miss", b"[kl]*"])]
                 else:
                     cmd = [name.encode()] + getattr(g, "g_" + name.lower())()
-                try:
-                    for a in cmd:
-                        a.decode("utf-8")
-                except UnicodeDecodeError:
-                    continue
-                if any(b"\x00" in a for a in cmd):
-                    continue
+                if self.s.luaq.get("lossyStrings") or self.s.luaq.get("utf8ArgsOnly"):
+                    # ARGV would go through from_utf8_lossy / be refused (C12's subject, repaired by 185512d): valid UTF-8 only
+                    try:
+                        for a in cmd:
+                            a.decode("utf-8")
+                    except UnicodeDecodeError:
+                        continue
                 break
             else:
                 cmd = [b"GET", b"k1"]
@@ -1009,8 +1002,8 @@ def main(tier, seed):
                 "distinct = (path, command, reply class, selection != 0, used another database, served a blocked client) tuples reached")
     rep.assumptions = [
         "the Spec is the connection machine with every switch off: each path uses the connection's selection at that moment; a queued SELECT takes effect for the commands queued after it and stays (what Redis does)",
-        "a script is the list of redis.calls it performs (one fixed wrapper script); Lua value conversion is applied outside the model (lua_engine.rs table; C12's subject)",
-        "through scripts only commands whose executor.rs implementation agrees with the client-facing handler are used, with valid UTF-8 arguments (C12's subject otherwise)",
+        "a script is the list of redis.calls it performs (one fixed wrapper script); the reply conversion of the script path is C12's model (Model/Lua.lean respToLua/luaToResp) with the switches C12's translator regenerates from lua_engine.rs (Gen.luaQuirksSeen), applied by the driver outside the connection machine",
+        "through scripts only well-formed commands whose executor.rs implementation agrees with the client-facing handler are used (C12's subject otherwise)",
         "SELECT's argument syntax is Rust's str::parse::<usize> (accepts +5 and 007); error replies are compared as 'an error' only",
         "blocking: single-key waits with integer timeouts that never fire (30 s / 0); multi-key leftovers, timeouts and pushes from scripts are C13's subject and are not generated; a blocking pop queued in MULTI never blocks (fast path or null array)",
         "WATCH, pub/sub, AUTH are not part of this machine; TTLs are >= 100 s so that nothing expires during a history",
@@ -1022,6 +1015,7 @@ def main(tier, seed):
         findings = [f for f in findings if f["id"] != os.environ["C18_IGNORE_FINDING"]]
     sess = Sess(rep, "c18", force_switches=os.environ.get("C18_FORCE_SWITCHES"))   # e.g. "evalshaDb0=0": sanity-testing only
     rep.extra["tree_switches"] = sess.switches
+    rep.extra["lua_conversion_switches"] = sess.luaq
     run = Runner(rep, sess, findings)
     r = Rng(seed)
     t_start = time.time()
